@@ -310,7 +310,8 @@ impl Array4 {
         mut cursor: SketchSlice,
         cur_min: u8,
         lg_config_k: u8,
-        _compact: bool,
+        lg_aux_arr: u8,
+        compact: bool,
         ooo: bool,
     ) -> Result<Self, Error> {
         let num_bytes = 1 << (lg_config_k - 1); // k/2 bytes for 4-bit packing
@@ -340,13 +341,32 @@ impl Array4 {
         // Read aux map if present
         let mut aux_map = None;
         if aux_count > 0 {
+            // A compact image lists the aux pairs back to back. An updatable image carries the
+            // whole aux table of 2^lg_aux_arr ints, with empty (zero) cells between the pairs.
+            // (lg_aux_arr == 0 is what this library wrote for its back-to-back list.)
+            let updatable_table = !compact && lg_aux_arr > 0;
+            let num_cells = if updatable_table {
+                if lg_aux_arr > lg_config_k {
+                    return Err(Error::deserial(format!(
+                        "aux table lg_arr must not exceed lg_k {lg_config_k}, got {lg_aux_arr}",
+                    )));
+                }
+                1u32 << lg_aux_arr
+            } else {
+                aux_count
+            };
+            let mut num_pairs = 0u32;
             let mut aux = AuxMap::new(lg_config_k);
-            for i in 0..aux_count {
+            for i in 0..num_cells {
                 let coupon = cursor.read_u32_le().map_err(|_| {
                     Error::insufficient_data(format!(
-                        "expected {aux_count} aux coupons, failed at index {i}",
+                        "expected {num_cells} aux coupons, failed at index {i}",
                     ))
                 })?;
+                if updatable_table && coupon == 0 {
+                    continue; // empty cell
+                }
+                num_pairs += 1;
                 let slot = get_slot(coupon) & ((1 << lg_config_k) - 1);
                 let value = get_value(coupon);
                 if aux.get(slot).is_some() {
@@ -361,6 +381,11 @@ impl Array4 {
                     )));
                 }
                 aux.insert(slot, value);
+            }
+            if num_pairs != aux_count {
+                return Err(Error::deserial(format!(
+                    "expected {aux_count} aux map entries, found {num_pairs}"
+                )));
             }
             aux_map = Some(aux);
         }
